@@ -280,6 +280,26 @@ def iterGo : List α → Nat → Nat → List Nat → Nat → List (α × Nat)
 def Sketch.iter (s : Sketch α) : List (α × Nat) :=
   iterGo s.levels.flatten 0 (s.levels.headD []).length (s.levels.tail.map List.length) 1
 
+/-- source shapes that the two repairs change; regenerated from the current headers (DSGen.kll_ITER_SKIPS_EMPTY_LEVELS,
+DSGen.kll_NAN_RANK_REJECTED).  `false` = the pinned shapes (`Sketch.iter`, `getQuantile` above/below). -/
+structure Flags where
+  iterSkipsEmpty : Bool
+  nanRankRejected : Bool
+deriving DecidableEq, Repr
+
+/-- the repaired constructor: `while (level < num_levels && levels[level] == levels[level + 1]) { ++level; weight *= 2; }`
+on the sizes of the levels from `level` on -/
+def iterSkip : List Nat → Nat → List Nat × Nat
+  | [], w => ([], w)
+  | sz :: hs, w => if sz == 0 then iterSkip hs (2 * w) else (sz :: hs, w)
+
+/-- `for (auto pair : sketch)` following the shape of the constructor in the current headers -/
+def Sketch.iterF (fl : Flags) (s : Sketch α) : List (α × Nat) :=
+  if fl.iterSkipsEmpty then
+    iterGo s.levels.flatten 0 ((iterSkip (s.levels.map List.length) 1).1.headD 0)
+      (iterSkip (s.levels.map List.length) 1).1.tail (iterSkip (s.levels.map List.length) 1).2
+  else s.iter
+
 /-! ### sorted view and queries -/
 
 /-- sort the first list (level 0) -/
@@ -310,6 +330,16 @@ def getRank (c : Cmp α) (s : Sketch α) (x : α) (incl : Bool) : Option Float :
 def getQuantile (c : Cmp α) (s : Sketch α) (r : Float) (incl : Bool) : Option α :=
   if s.n == 0 then none
   else if r < 0.0 || r > 1.0 then none
+  else SortedView.getQuantile (getSortedView c s).2 r incl
+
+/-- the range check of `get_quantile`: pinned `!(rank < 0 || rank > 1)` (NaN passes), repaired `rank >= 0 && rank <= 1` -/
+def rankAccepted (fl : Flags) (r : Float) : Bool :=
+  if fl.nanRankRejected then (r ≥ 0.0 && r ≤ 1.0) else !(r < 0.0 || r > 1.0)
+
+/-- `get_quantile` following the range check in the current headers -/
+def getQuantileF (fl : Flags) (c : Cmp α) (s : Sketch α) (r : Float) (incl : Bool) : Option α :=
+  if s.n == 0 then none
+  else if !rankAccepted fl r then none
   else SortedView.getQuantile (getSortedView c s).2 r incl
 
 /-- `get_CDF`; `none` = throws (empty sketch, invalid split points) -/
